@@ -461,16 +461,45 @@ func ops(v variant) []op {
 			w.refStage(s, channel.Progressing)
 			return true
 		}})
-	o = append(o, op{name: "SetProgressed(next)", offered: capOK,
-		arg: func(w *world) *channel.State { return w.cand("next") },
-		run: func(w *world, s *channel.State) error {
-			return w.m.SetProgressed(channel.NewProgressedEvent(w.params.ID(), &channel.ElapsedTimeout{}, s, 0))
-		},
-		ref: func(w *world, s *channel.State) bool {
-			w.rCur, w.rCurFin, w.rCurProg = fx.Enc(s), s.IsFinal, true
-			w.rStg, w.rSigs, w.rPhase = "", make([]bool, v.N), channel.Progressed
-			return true
-		}})
+	// the progressed event carries the state that is on chain: "next" is what SetProgressing(next)
+	// stages, "final" differs from it (somebody else's progression of the same version)
+	for _, k := range []string{"next", "final"} {
+		k := k
+		o = append(o, op{name: "SetProgressed(" + k + ")", offered: capOK,
+			arg: func(w *world) *channel.State { return w.cand(k) },
+			run: func(w *world, s *channel.State) error {
+				return w.m.SetProgressed(channel.NewProgressedEvent(w.params.ID(), &channel.ElapsedTimeout{}, s, 0))
+			},
+			ref: func(w *world, s *channel.State) bool {
+				w.rCur, w.rCurFin, w.rCurProg = fx.Enc(s), s.IsFinal, true
+				w.rStg, w.rSigs, w.rPhase = "", make([]bool, v.N), channel.Progressed
+				return true
+			}})
+	}
+	// a signature that passed CheckUpdate for participant 0 on this very object is not thereby
+	// participant 1's: Update with the checked object, then AddSig at the other index
+	if v.N >= 2 {
+		o = append(o, op{name: "Update(checked)+AddSig(1,checked-sig-of-0)", offered: func(w *world) bool { return hasCur(w) && capOK(w) },
+			arg: func(w *world) *channel.State { return w.cand("next") },
+			run: func(w *world, s *channel.State) error {
+				sig := fx.Sig(0, s)
+				w.m.CheckUpdate(s, 0, sig, 0) //nolint:errcheck
+				if err := w.m.Update(s, 0); err != nil {
+					return err
+				}
+				if err := w.m.AddSig(1, sig); err == nil {
+					return fmt.Errorf("ORACLE: AddSig(1) accepted participant 0's signature (it had passed CheckUpdate for index 0 on the same object)")
+				}
+				return nil
+			},
+			ref: func(w *world, s *channel.State) bool {
+				if w.rPhase != channel.Acting || !validNext(w, "next", 0) {
+					return false
+				}
+				w.refStage(s, channel.Signing)
+				return true
+			}})
+	}
 	return o
 }
 
